@@ -45,6 +45,10 @@ type Conn struct {
 	ops       []Op
 	closes    int
 	deadlines int
+	// write-side stall / failure (add-only, see LimitWrites in conn_wlimit.go); off by default
+	wlimOn   bool
+	wlimLeft int
+	wlimFail bool
 }
 
 // NewPair returns the two ends; the client end records its operations.
@@ -127,6 +131,9 @@ func (c *Conn) Write(p []byte) (int, error) {
 	if closed {
 		c.log(Op{Kind: 'W', Armed: isArmed, Err: "closed"})
 		return 0, net.ErrClosed
+	}
+	if c.writeLimited() {
+		return c.limitedWrite(p, isArmed)
 	}
 	h := c.wr
 	h.mu.Lock()
